@@ -76,6 +76,14 @@ class expr(object):
 
         rhs_e = pop_expr()
         lhs_e = pop_expr()
+        
+        if (isinstance(rhs, expr) and rhs_e is self.em 
+            and lhs_e is rhs.em and lhs_e is not rhs_e):
+            # Python calls the reflected comparison of the right operand
+            # first when its type is a subclass of the left operand's type
+            # ('e <= l[i]' invokes l[i].__ge__(e)). The operands come off 
+            # the stack in evaluation order, so 'self' is the upper one
+            lhs_e, rhs_e = rhs_e, lhs_e
        
         e = ExprBinModel(lhs_e, op, rhs_e)
         if in_srcinfo_mode():
